@@ -12,6 +12,15 @@ push/pull replays of arbitrary buffer images with or without the join-ignore
 raise of the cut-off; the buffer size is any `0 < N < 2^64` (`len` of a Go slice);
 the node may start from any clock and cut-off (fresh start or snapshot restart).
 
+Hypotheses that stay, and why:
+* `0 < N`: with `EventBuffer = 0` the real code divides by zero in
+  `LTime % LamportTime(len(buf))` and panics on the first event — a configuration,
+  not an input (C09 is about inputs); the model is meaningless there.
+* `N < 2^64`: `len` of a Go slice is an `int`; needed so that `LamportTime(len(buf))`
+  is `N` itself.
+* `NoWrap` (at-most-once only): necessary, see `C05_at_most_once_counterexample`
+  (replayed on a real node on every run: recorded finding `redelivery-after-wrap`).
+
 FULL STATEMENT (not provable — the code violates it, see the counterexample):
 
     theorem C05_at_most_once (N) (hN : 0 < N) (hN2 : N < 2^64) (c m : W) (ins : List (In α)) :
@@ -24,6 +33,9 @@ time 2^64−1) and the negation witness at 2^64−1.
 -/
 import SerfProofs.Lemmas.EventBuf
 import SerfModel.Gen.BufLocks
+import SerfModel.Gen.BufHandler
+import SerfModel.Gen.PushPullReplay
+import SerfProofs.Lemmas.BufHandlerIR
 namespace SerfProofs.C05
 open SerfModel.Atomic SerfModel.EventBuf SerfProofs.EventBuf
 
@@ -384,5 +396,161 @@ theorem C05_counterexample_deliveries :
 not read before it).  This is what makes `handle` ONE atomic action, so that concurrent deliveries of the same
 event (gossip and push/pull at the same moment) are covered by the sequential theorems above. -/
 theorem C05_handler_holds_lock : SerfModel.Gen.BufLocks.handleUserEvent.wholeBodyExclusive = true := by decide
+
+/-! ### Delivered-iff at full strength, and "exactly once"
+
+Where 2^64−1 enters: only through `SerfProofs.EventBuf.witness_nat` (witnessing a
+time ≠ 2^64−1 never moves the clock back and moves it past the time).  It is used
+for the two invariant clauses "delivered events are below the clock" and "a
+delivered event that is not yet too old sits in its slot".  Everything that needs
+only "what sits in a slot was delivered" (`SlotsIn`) — in particular "a fresh event
+inside the window IS delivered" — holds for all 64-bit times. -/
+
+/-- **Delivered ⇔ (not below the cut-off ∧ inside the window ∧ not delivered
+before)** — state form.  `Inv b D` holds in every state reached by a history
+without the time 2^64−1 (gossip and push/pull replays mixed, also in the middle of a
+replay); the arriving time `lt` itself is arbitrary (2^64−1 included). -/
+theorem C05_delivered_iff_inv (b : Buf α) (D : List (W × α)) (h : Inv b D)
+    (hN2 : b.slots.length < 2 ^ 64) (lt : W) (x : α) :
+    (handle b lt x).2 = .delivered ↔
+      (¬ lt < b.minTime ∧ ¬ lt.toNat + b.slots.length < (witness b.clock lt).toNat ∧ (lt, x) ∉ D) := by
+  constructor
+  · intro hd
+    obtain ⟨h1, h2, h3⟩ := (C05_delivered_iff b lt x).1 hd
+    have hwin : ¬ lt.toNat + b.slots.length < (witness b.clock lt).toNat := by
+      intro hlt
+      have := (tooOld_iff hN2 (witness b.clock lt) lt).2 hlt
+      rw [this] at h2; cases h2
+    refine ⟨h1, hwin, ?_⟩
+    intro hmem
+    apply h3
+    rw [slotIdx_eq hN2]
+    apply h.inSlot (lt, x) hmem
+    simp only
+    by_cases hmax : lt = maxW
+    · have h64 : lt.toNat = 2 ^ 64 - 1 := by rw [hmax]; simp [maxW]
+      have := b.clock.isLt
+      omega
+    · have := (witness_nat b.clock lt hmax).1
+      omega
+  · intro ⟨h1, h2, h3⟩
+    exact C05_fresh_delivered_state b D h.slotsIn hN2 lt x h3 h1 h2
+
+/-- **Delivered ⇔ …** for an event arriving by gossip after any history (gossip and
+push/pull replays mixed) without the time 2^64−1. -/
+theorem C05_delivered_iff_history_partial (N : Nat) (hN : 0 < N) (hN2 : N < 2 ^ 64) (c m : W)
+    (ins : List (In α)) (hnw : NoWrap ins) (lt : W) (x : α) :
+    (handle (SerfModel.EventBuf.run (Buf.start N c m) ins).1 lt x).2 = .delivered ↔
+      (¬ lt < (SerfModel.EventBuf.run (Buf.start N c m) ins).1.minTime
+       ∧ ¬ lt.toNat + N < (witness (SerfModel.EventBuf.run (Buf.start N c m) ins).1.clock lt).toNat
+       ∧ (lt, x) ∉ deliveries (Buf.start N c m) ins) := by
+  have h := run_inv ins (Buf.start (α := α) N c m) [] (by simpa [Buf.start] using hN)
+    (by simpa [Buf.start] using hN2) hnw (Inv.start N c m)
+  have hlen : (SerfModel.EventBuf.run (Buf.start (α := α) N c m) ins).1.slots.length = N := by
+    rw [h.2]; simp [Buf.start]
+  have := C05_delivered_iff_inv _ _ h.1 (by omega) lt x
+  rw [hlen] at this
+  simpa [deliveries] using this
+
+/-- **Delivered ⇔ …** for an event in the middle of a push/pull replay: after any
+history, the prelude of `MergeRemoteState` and the part `pre` of the image already
+replayed (all without the time 2^64−1). -/
+theorem C05_delivered_iff_in_replay_partial (N : Nat) (hN : 0 < N) (hN2 : N < 2 ^ 64) (c m : W)
+    (ins : List (In α)) (hnw : NoWrap ins) (e : W) (raise : Bool) (pre : List (W × α))
+    (hpre : ∀ p ∈ pre, p.1 ≠ maxW) (lt : W) (x : α) :
+    let b0 := (SerfModel.EventBuf.run (Buf.start N c m) ins).1
+    let b1 := handleAll (raiseMin (witnessRemote b0 e) raise e) pre
+    (handle b1.1 lt x).2 = .delivered ↔
+      (¬ lt < b1.1.minTime ∧ ¬ lt.toNat + N < (witness b1.1.clock lt).toNat
+       ∧ (lt, x) ∉ deliveries (Buf.start N c m) ins ++ b1.2) := by
+  intro b0 b1
+  have h := run_inv ins (Buf.start (α := α) N c m) [] (by simpa [Buf.start] using hN)
+    (by simpa [Buf.start] using hN2) hnw (Inv.start N c m)
+  have hlen0 : b0.slots.length = N := by
+    show (SerfModel.EventBuf.run _ ins).1.slots.length = N
+    rw [h.2]; simp [Buf.start]
+  have hp := prelude_inv b0 _ e raise h.1
+  have h1 := handleAll_inv pre _ _ (by omega) (by omega) hpre hp.1
+  have hlen : b1.1.slots.length = N := by
+    show (handleAll _ pre).1.slots.length = N
+    omega
+  have := C05_delivered_iff_inv b1.1 _ h1.1 (by omega) lt x
+  rw [hlen] at this
+  simpa [deliveries] using this
+
+-- non-vacuity: the three theorems apply to a concrete history (their hypotheses are satisfiable)
+example : (handle (SerfModel.EventBuf.run (α := Nat) (Buf.start 2 1#64 0#64) [.gossip 1#64 7, .gossip 3#64 8]).1 3#64 8).2
+    ≠ .delivered := by decide
+example : (3#64, 8) ∈ deliveries (α := Nat) (Buf.start 2 1#64 0#64) [.gossip 1#64 7, .gossip 3#64 8] := by decide
+
+theorem run_append (a c : List (In α)) : ∀ (b : Buf α),
+    SerfModel.EventBuf.run b (a ++ c) =
+      ((SerfModel.EventBuf.run (SerfModel.EventBuf.run b a).1 c).1,
+       (SerfModel.EventBuf.run b a).2 ++ (SerfModel.EventBuf.run (SerfModel.EventBuf.run b a).1 c).2) := by
+  induction a with
+  | nil => intro b; simp [SerfModel.EventBuf.run]
+  | cons i rest ih => intro b; simp [SerfModel.EventBuf.run, ih, List.append_assoc]
+
+/-- **A fresh event inside the window is delivered exactly once.**  Whatever the
+history before (`pre`) and after (`post`) — gossip and push/pull mixed — without the
+time 2^64−1: an event that arrives by gossip, was not delivered before, is not
+below the cut-off and lies inside the window occurs exactly once in everything the
+application ever receives.  (Its delivery at arrival needs no hypothesis on the
+times: `C05_fresh_delivered`; "never again" is where `NoWrap` is needed, and
+`C05_at_most_once_counterexample` shows it cannot be dropped.) -/
+theorem C05_fresh_exactly_once_partial (N : Nat) (hN : 0 < N) (hN2 : N < 2 ^ 64) (c m : W)
+    (pre post : List (In α)) (lt : W) (x : α)
+    (hnw : NoWrap (pre ++ [.gossip lt x] ++ post))
+    (hfirst : (lt, x) ∉ deliveries (Buf.start N c m) pre)
+    (hmin : ¬ lt < (SerfModel.EventBuf.run (Buf.start N c m) pre).1.minTime)
+    (hwin : ¬ lt.toNat + N < (witness (SerfModel.EventBuf.run (Buf.start N c m) pre).1.clock lt).toNat) :
+    (deliveries (Buf.start N c m) (pre ++ [.gossip lt x] ++ post)).count (lt, x) = 1 := by
+  have hnd := C05_at_most_once_partial N hN hN2 c m _ hnw
+  rw [List.Nodup.count hnd]
+  have hdel := C05_fresh_delivered N hN2 c m pre lt x hfirst hmin hwin
+  have hmem : (lt, x) ∈ deliveries (Buf.start N c m) (pre ++ [.gossip lt x] ++ post) := by
+    simp only [deliveries, List.append_assoc, run_append, List.mem_append]
+    right; left
+    simp [SerfModel.EventBuf.run, stepIn, handleAll, hdel]
+  rw [if_pos hmem]
+
+example : (deliveries (α := Nat) (Buf.start 2 1#64 0#64)
+    ([.gossip 1#64 7] ++ [.gossip 3#64 8] ++ [.gossip 3#64 8, .pushPull 0#64 false [some (3#64, [8])]])).count (3#64, 8) = 1 := by
+  decide
+
+/-- **Source tie (regenerated on every run): the body of `handleUserEvent`.**
+`Gen/BufHandler.lean` is the statement-by-statement translation of the function
+body in serf/serf.go (witness → cut-off guard → `curTime := eventClock.Time()` →
+too-old guard `curTime > LamportTime(len(buf)) && LTime < curTime-LamportTime(len(buf))`
+→ `idx := LTime % LamportTime(len(buf))` → slot load → same-time test / `Equals`
+loop / fresh record stored into the slot → append → delivery → `return true`).
+It is, literally, the body the proofs are about. -/
+theorem C05_gen_handler_body :
+    SerfModel.Gen.BufHandler.handleUserEvent = SerfProofs.BufHandlerIR.ueBody := by decide
+
+/-- **The translated body IS the model.** For every buffer, message time and item,
+interpreting the regenerated body of `handleUserEvent` yields exactly
+`EventBuf.handle`: the same buffer afterwards, and it returns `true` (re-broadcast)
+and sends on the event channel exactly when the model's outcome is `delivered`.
+An edit of a guard expression, of `curTime`, of the slot index, of the order of
+the statements, of the duplicate test or a dropped update changes the generated
+body and breaks this obligation (or makes the translator fail). -/
+theorem C05_handler_body_is_model (ctx : SerfModel.BufHandlerIR.Ctx) (b : Buf α) (lt : W) (x : α) :
+    (SerfModel.BufHandlerIR.run SerfModel.Gen.BufHandler.handleUserEvent ctx b lt x).1.buf = (handle b lt x).1
+    ∧ (SerfModel.BufHandlerIR.run SerfModel.Gen.BufHandler.handleUserEvent ctx b lt x).2
+        = decide ((handle b lt x).2 = .delivered)
+    ∧ (SerfModel.BufHandlerIR.run SerfModel.Gen.BufHandler.handleUserEvent ctx b lt x).1.delivered
+        = decide ((handle b lt x).2 = .delivered) := by
+  rw [C05_gen_handler_body]
+  exact SerfProofs.BufHandlerIR.ueBody_is_handle ctx b lt x
+
+/-- **Source tie (regenerated on every run): the user-event part of
+`MergeRemoteState`.**  The guard and argument of the remote-clock witness, the
+join-ignore raise of the cut-off (outer guard `isJoin && eventJoinIgnore`, test
+`pp.EventLTime > eventMinTime`, assignment, under `eventLock`), the replay loop (every
+event of every non-nil slot through `handleUserEvent`, time from the slot, name and
+payload from the event) and the order witness → raise → replay are the ones
+`EventBuf.witnessRemote` / `raiseMin` / `flatten` / `stepIn` model. -/
+theorem C05_gen_replay_shape : SerfModel.Gen.PushPullReplay.shape = modelledReplayShape := by decide
 
 end SerfProofs.C05
